@@ -403,6 +403,9 @@ void UtilContext::print16(const char *token)
 
     printf(" %04x", num);
 
+    // A range ending at the top of the address space must not wrap to 0.
+    if (end - start <= 2) { break; }
+
     start = start + 2;
   }
 
@@ -466,6 +469,9 @@ void UtilContext::print32(const char *token)
     }
 
     printf(" %08x", num);
+
+    // A range ending at the top of the address space must not wrap to 0.
+    if (end - start <= 4) { break; }
 
     start = start + 4;
   }
